@@ -1294,9 +1294,17 @@ namespace nrf51_details {
 
     bluetoe::details::uint128_t scheduled_radio_base_with_encryption_base::create_passkey()
     {
-        const bluetoe::details::uint128_t result{{
-            random_number8(), random_number8(), random_number8()
-        }};
+        // A passkey is a decimal number with 6 digits (000000 - 999999). 20 bit random values are drawn, until
+        // one is within that range, to keep all passkeys equally likely.
+        std::uint32_t passkey = 0;
+
+        do
+        {
+            passkey = random_number32() & 0xfffff;
+        } while ( passkey > 999999 );
+
+        bluetoe::details::uint128_t result{{ 0 }};
+        bluetoe::details::write_32bit( result.data(), passkey );
 
         return result;
     }
